@@ -601,7 +601,7 @@ func zvRaceParts(m *zmon, rng *core.Rand, pools map[string][]*zpol) {
 	all := zvAllPool(pools)
 
 	// (1) Compile path: one ACLCaches, shared policy objects, 8 goroutines
-	rounds := core.N(200, 1500)
+	rounds := core.N(800, 6000)
 	rb := rng.Fork(0xD)
 	for round := 0; round < rounds && m.run.Violations() <= 30; round++ {
 		r := rb.Fork(uint64(round))
@@ -700,7 +700,7 @@ func zvRaceParts(m *zmon, rng *core.Rand, pools map[string][]*zpol) {
 	}
 
 	// (2) resolver path: one ACLResolver, 8 goroutines resolving tokens that share policies / roles
-	rounds = core.N(120, 1000)
+	rounds = core.N(400, 3000)
 	rc := rng.Fork(0xE)
 	for round := 0; round < rounds && m.run.Violations() <= 30; round++ {
 		r := rc.Fork(uint64(round))
